@@ -185,14 +185,14 @@ func c17Handle(c *Ctx, r *Report, rule string) {
 	}
 	for _, combo := range [][2]bool{{false, true}, {true, true}, {false, false}, {true, false}} {
 		local, total := combo[0], combo[1]
-		for _, lat := range []int64{0, 5} {
+		for _, lat := range []int64{0, 1} { // the smallest latency there is
 			name := fmt.Sprintf("localLimit=%v,latency=%d", local, lat)
 			if !total {
 				name += ",no-total-limit"
 			}
 			rate, burst := int64(0), int64(0)
 			if local {
-				burst = 10
+				burst = 1 // the smallest per-connection limit there is
 			}
 			sc := &Scenario{Name: name, Params: map[string]SV{"recv": symRef("h", false), "p0": symRef("cx", false), "p1": symRef("next", false)},
 				Heap: map[string]SV{"h.ReadBytesPerSecond": symInt(rate), "h.ReadBurstSize": symInt(burst), "h.Latency": symInt(lat), "h.totalLimiter": symRef("h.totalLimiter", false), "cx.Conn": symRef("rawconn", false)},
